@@ -343,6 +343,10 @@ Proof.
   unfold all_to_locals. cbn [snd]. rewrite map_map. apply map_ext. intros e. destruct (migrates locals e); reflexivity.
 Qed.
 
+Lemma map_fst_flag (f : tx * bool -> bool) al :
+  map fst (map (fun e => if f e then (fst e, true) else e) al) = map fst al.
+Proof. rewrite map_map. apply map_ext. intros e. destruct (f e); reflexivity. Qed.
+
 Lemma inv_replace_pending p t o b :
   Inv p -> l_get (p_pending p) (sender t) (t_nonce t) = Some o ->
   (forall x, In x (map fst (p_all p)) -> t_id x <> t_id t) ->
@@ -465,6 +469,7 @@ Proof.
       destruct (l_get (p_queue p1) (sender t) (t_nonce t));
       destruct_ifs; cbn [p_chain p_pending p_queue p_all p_nonces set_all set_queue set_locals set_heap snd fst];
         try reflexivity;
+        try (rewrite map_fst_flag; reflexivity);
         try (rewrite (surjective_pairing (all_to_locals _ _)); cbn [p_chain p_pending p_queue p_all p_nonces set_all set_queue set_locals set_heap snd fst];
              try rewrite all_to_locals_fst; reflexivity).
     + unfold journal_tx, priced_put, priced_removed, reheap.
